@@ -13,6 +13,7 @@ import (
 	"go/token"
 	"os"
 	"path/filepath"
+	"runtime"
 	"sort"
 	"strconv"
 	"strings"
@@ -28,9 +29,17 @@ var (
 
 type genFunc func() (fileName string, content string)
 
-var gens []genFunc
+type taggedGen struct {
+	tag string // source file of the generator, e.g. gen_c12_iosites.go — the property it serves is in the name
+	f   genFunc
+}
 
-func registerGen(g genFunc) { gens = append(gens, g) }
+var gens []taggedGen
+
+func registerGen(g genFunc) {
+	_, file, _, _ := runtime.Caller(1)
+	gens = append(gens, taggedGen{filepath.Base(file), g})
+}
 
 func main() {
 	flag.StringVar(&repo, "repo", "/repo", "")
@@ -38,8 +47,8 @@ func main() {
 	flag.Parse()
 	os.MkdirAll(outDir, 0o755)
 	changed := 0
-	for _, g := range gens {
-		name, content := safeGen(g)
+	for _, tg := range gens {
+		name, content := safeGen(tg)
 		if name == "" {
 			continue
 		}
@@ -63,15 +72,16 @@ func main() {
 	}
 }
 
-func safeGen(g genFunc) (name, content string) {
+func safeGen(tg taggedGen) (name, content string) {
 	defer func() {
 		if r := recover(); r != nil {
-			fmt.Println("extract: generator failed:", r)
+			// one line per failed generator; ./check attributes it to the property named in the tag
+			fmt.Printf("GENERATOR-FAILED %s: %v\n", tg.tag, r)
 			failed = true
 			name = ""
 		}
 	}()
-	return g()
+	return tg.f()
 }
 
 // ---- helpers -----------------------------------------------------------------------------------
